@@ -246,11 +246,14 @@ class MTVRPEnv(RL4COEnvBase):
             )
             > 0
         )
+        # (1e-5 slack as in check_solution_validity: loads filling the vehicle exactly stay available)
         exceeds_cap_linehaul = (
-            td["demand_linehaul"] + td["used_capacity_linehaul"] > td["vehicle_capacity"]
+            td["demand_linehaul"] + td["used_capacity_linehaul"]
+            > td["vehicle_capacity"] + 1e-5
         )
         exceeds_cap_backhaul = (
-            td["demand_backhaul"] + td["used_capacity_backhaul"] > td["vehicle_capacity"]
+            td["demand_backhaul"] + td["used_capacity_backhaul"]
+            > td["vehicle_capacity"] + 1e-5
         )
 
         meets_demand_constraint = (
